@@ -628,6 +628,15 @@ func TestCorr(t *testing.T) {
 				t.Fatalf("%s: %v", p, err)
 			}
 			newARunner(t, run, c.Powers).history(c.Ops)
+		case "grace-legacy":
+			var c struct {
+				Shapes []string `json:"shapes"`
+				Legacy int      `json:"legacy_includes"`
+			}
+			if err := json.Unmarshal(bz, &c); err != nil {
+				t.Fatalf("%s: %v", p, err)
+			}
+			graceScenario(t, run, c.Shapes, c.Legacy)
 		case "set-active":
 			var c struct {
 				Variant string `json:"variant"`
@@ -787,6 +796,16 @@ func TestCorr(t *testing.T) {
 	for i := 0; i < run.N/5; i++ {
 		metrixHistory(t, run, genMetrixHistory(run))
 		run.Count("source", "metrix-history")
+	}
+
+	// ---- round 7: the previous release's unjailed snapshot (comma-joined) with the separator byte inside operator addresses ----
+	for i := 0; i < 12; i++ {
+		n := 2 + run.Rng.Intn(4)
+		var shapes []string
+		for k := 0; k < n; k++ {
+			shapes = append(shapes, graceShapes[run.Rng.Intn(len(graceShapes))])
+		}
+		graceScenario(t, run, shapes, run.Rng.Intn(n+1))
 	}
 
 	// ---- the version gate: real paloma BeginBlock over (binary version, completed upgrade) pairs ----
